@@ -1,7 +1,7 @@
 (** Helpers for running the VPK model against the implementation (correspondence, checks/c13.py).
     Nothing here is used by a theorem. *)
 From Coq Require Import List NArith ZArith Bool Uint63.
-From SV Require Import Fmt.VpkDir SM.Vpk.
+From SV Require Import Fmt.VpkDir Fmt.VpkDirV2 SM.Vpk Fmt.VpkArchName.
 Import ListNotations.
 Open Scope N_scope.
 
@@ -97,3 +97,21 @@ Definition entry_widths_expected : list N := [4; 2; 2; 4; 4; 2].
 
 Fixpoint bad_idx {A} (f : A -> bool) (n : N) (l : list A) : list N :=
   match l with [] => [] | x :: r => (if f x then [] else [n]) ++ bad_idx f (n + 1) r end.
+
+(** Archive naming: the model's [_dir_prefix] and per-index names of the write / read / verify sites against the names the
+    implementation's sites really open. *)
+Definition oB_eqb (a b : option bytes) : bool :=
+  match a, b with None, None => true | Some x, Some y => bytes_eqb x y | _, _ => false end.
+Fixpoint list_eqb {A} (f : A -> A -> bool) (a b : list A) : bool :=
+  match a, b with [], [] => true | x :: a', y :: b' => f x y && list_eqb f a' b' | _, _ => false end.
+Definition check_archname (c : ncfg) (f : bytes) (idxs : list N) (ex : option bytes * list (list (option bytes))) : bool :=
+  let '(dp, names) := obs_name c f idxs in
+  oB_eqb dp (fst ex) && list_eqb (list_eqb oB_eqb) names (snd ex).
+
+(** The same for both header versions: (VPK.version, entries, footer). *)
+Definition check_decode_v (dc : dcfg) (file : bytes) (ex : option (N * list ent_t * (N * N))) : bool :=
+  match dec_file_v dc file, ex with
+  | None, None => true
+  | Some (v, es, f), Some (xv, xs, fd) => (v =? xv) && ent_match xs (load_table es) && dg_eqb (dg f) fd
+  | _, _ => false
+  end.
